@@ -44,6 +44,15 @@ register("C09",
     "Trusted: clang CFG (no exception edges: the catch(char*) path is out of scope); call graph over resolved callees.",
     "CFG pairing rule, call-graph reachability + who-writes, symbolic affine evaluation, semantic template match of constraint constructions",
     "DESIGN.md §5 C09")
+register("C18",
+    "Strong for the transform clause: each of the 7 SepTransform cases is extracted symbolically as a signed permutation of (xgap,ygap) "
+    "with type swap iff axes swap, shown equal to the documented geometric matrix and -- for rotations -- to the maps the Graph applies to "
+    "node centres and route points; group laws of D4; addSep(d,g);transform(T) == addSep(T(d),g) for all 8x7x2x2 cases; enum tables "
+    "(negateSepDir, weakening/strengthening, conversions, cardFlip, getCardinalDir) over all enumerators; gaps only negated by unary minus; "
+    "the flippedRetrieval contract of the two deep-layer retrieval methods on every path. TGLF text round trip is not decided.",
+    "Trusted: engine/microai; the documented meaning of the flips (constraints.h) encoded as matrices in engine/props/c18.py.",
+    "abstract interpretation over finite enum domains and affine gap symbols; CFG must-precede rule; who-writes / reader-provenance rules",
+    "DESIGN.md §5 C18")
 for _p, _r in {
  "C06": "equality of route costs between an incrementally edited router and a fresh one quantifies over run-time visibility-graph contents after arbitrary edit histories; no rule over code shape is a necessary condition of it",
  "C12": "tree-ness and terminal preservation of hyperedges are invariants of dynamically rewritten run-time graphs; not visible in code shape",
